@@ -386,7 +386,7 @@ func (r *Resolver) AutoTA() {
 		}
 
 		if ta.DNSKey.Flags&DNSKEYFlagRevoke != 0 {
-			oldTag := tag - DNSKEYFlagRevoke
+			oldTag := unrevokedKeyTag(ta.DNSKey)
 			oldTA := kskCurrent[oldTag]
 			// RFC 5011 §4 state table: both Valid + RevBit and
 			// Missing + RevBit transition to revoked. Since Missing
@@ -611,6 +611,17 @@ func autoTARefreshFailureCounter(err error, fallback *metric.Counter) *metric.Co
 	}
 }
 
+// unrevokedKeyTag returns the key tag k carries with its REVOKE bit clear,
+// i.e. the tag under which the same key was tracked before it was revoked.
+// It is computed from the key rather than as "tag - 128": setting the bit
+// adds 128 to the 32-bit RDATA sum of RFC 4034 Appendix B, and when that
+// carries out of the low 16 bits the folded tag moves by 129, not 128.
+func unrevokedKeyTag(k *dns.DNSKEY) uint16 {
+	unrevoked := *k
+	unrevoked.Flags &^= DNSKEYFlagRevoke
+	return dnssec.KeyTag(&unrevoked)
+}
+
 // sameKeyExceptRevoke reports whether revokedKey is the same DNSKEY
 // as currentKey with only the REVOKE bit toggled. Key tags are 16-bit
 // checksums and can collide, so identifying a revocation by tag alone
@@ -681,7 +692,7 @@ func stageRevocationSelfSignatures(
 			existing.DNSKey.Flags == ta.DNSKey.Flags {
 			continue
 		}
-		oldTA := kskCurrent[tag-DNSKEYFlagRevoke]
+		oldTA := kskCurrent[unrevokedKeyTag(ta.DNSKey)]
 		if oldTA == nil || (oldTA.State != StateValid && oldTA.State != StateMissing) {
 			continue
 		}
@@ -748,7 +759,7 @@ func verifyFetchedKeysWithWork(
 		if dnskey.Flags&DNSKEYFlagRevoke == 0 {
 			continue
 		}
-		for _, candidate := range currentKeys[dnssec.KeyTag(dnskey)-DNSKEYFlagRevoke] {
+		for _, candidate := range currentKeys[unrevokedKeyTag(dnskey)] {
 			if sameKeyExceptRevoke(candidate, dnskey) {
 				tag := dnssec.KeyTag(dnskey)
 				revokedBootstrap[tag] = append(revokedBootstrap[tag], dnskey)
